@@ -289,10 +289,30 @@ def str_repeat(I, s, n):
     return VStr(r)
 
 
+_FMT_CONV = _re.compile(r'%(?:\((.*?)\))?([#0\- +]*)(\*|\d+)?(?:\.(\*|\d+))?[hlL]?(.|$)')
+
+
 def str_format(I, fmt, arg):
     used('str.__mod__')
     f = concretise(fmt)
     args = arg.items if isinstance(arg, VTuple) else [arg]
+    convs = _FMT_CONV.findall(f)
+    plain = all(c[4] in ('s', 'r', '%') and not (c[0] or c[1] or c[2] or c[3]) for c in convs)
+    if not plain or any(c[4] == '' for c in convs):
+        # anything but bare %s / %r / %%: what CPython does with this format string does not depend
+        # on the argument VALUES when it is a format error or an arity error -- run it on
+        # placeholder strings and take over the exception
+        numeric = any(c[4] in 'diouxXeEfFgGc' for c in convs)
+        try:
+            f % tuple('\x00' for _ in args)
+            failed = None
+        except (ValueError, TypeError) as e:
+            failed = e
+        if failed is not None and not numeric and I.spec_mode == 0:
+            from .interp import Raised
+            raise Raised(VExc(type(failed), [VStr(str(failed))]))
+        if not numeric:
+            raise Unsupported('format string %r' % (f,))
     parts, i, k = [], 0, 0
     buf = ''
     while i < len(f):
